@@ -392,3 +392,137 @@ def _walk_value(pm: PyModel, value: Any, t: TypeRef, path: Tuple):
         yield from walk(pm, value, path)
         return
     yield path, value, t
+
+
+# ------------------------------------------------------------------ satisfying mode
+class Unsatisfied(Exception):
+    """No invariant-satisfying value was found within the retry budget."""
+
+
+def _int_constants(pm: PyModel) -> List[int]:
+    import ast as _ast
+
+    found = set()
+    for cls in pm.classes.values():
+        for inv in cls.own_invariants:
+            for node in _ast.walk(inv.node):
+                if isinstance(node, _ast.Constant) and type(node.value) is int:
+                    found.add(node.value)
+    for fn in pm.functions.values():
+        for node in _ast.walk(fn.node):
+            if isinstance(node, _ast.Constant) and type(node.value) is int:
+                found.add(node.value)
+    result = set()
+    for value in found:
+        for delta in (-1, 0, 1):
+            if 0 <= value + delta <= 64:
+                result.add(value + delta)
+    return sorted(result)
+
+
+class SatisfyingGenerator(InstanceGenerator):
+    """
+    Generate instances on which *every* invariant holds according to E4
+    (generate-and-repair, bottom-up; bounded retries; raises :class:`Unsatisfied`).
+    """
+
+    def __init__(self, pm: PyModel, rng: random.Random, **kwargs: Any) -> None:
+        super().__init__(pm, rng, **kwargs)
+        self.lengths = _int_constants(pm) or [0, 1, 2, 3]
+        self.tries_value = 40
+        self.tries_instance = 40
+        self.work_budget = 600  # object constructions per top-level instance
+        self._work = 0
+        self.stats = {"instances": 0, "retries": 0, "unsatisfied": 0}
+
+    def gen_str(self) -> str:
+        rng = self.rng
+        if rng.random() < 0.35:
+            n = rng.choice(self.lengths)
+            alphabet = rng.choice(["abc", "xyzXYZ", "0123456789", "a", "abcxyz019_-"])
+            return "".join(rng.choice(alphabet) for _ in range(n))
+        return super().gen_str()
+
+    def gen_prim(self, prim: str) -> Any:
+        rng = self.rng
+        if prim == "bytearray" and rng.random() < 0.5:
+            return bytes(rng.randrange(256) for _ in range(rng.choice(self.lengths)))
+        if prim == "int" and rng.random() < 0.4:
+            return rng.choice(self.lengths) + rng.choice([-1, 0, 0, 1])
+        return super().gen_prim(prim)
+
+    def _holds(self, invs, arg: Any) -> bool:
+        for _, inv in invs:
+            if inv.func is None:
+                continue
+            try:
+                if inv.func(arg) is not True:
+                    return False
+            except Exception:
+                return False
+        return True
+
+    def gen_value(self, t: TypeRef, depth: int) -> Any:
+        pm = self.pm
+        if t.kind == "list":
+            if not self._can_build(t.inner, depth):
+                return []
+            n = self.rng.choice(self.lengths + [0, 1, 2])
+            n = min(n, 6 if depth < self.max_depth else 2)
+            return [self.gen_value(t.inner, depth) for _ in range(n)]
+        if t.kind == "atomic" and pm.is_constrained_primitive(t.name):
+            invs = pm.all_invariants(t.name)
+            prim = pm.primitive_of(t.name)
+            for _ in range(self.tries_value):
+                value = self.gen_prim(prim)
+                if self._holds(invs, value):
+                    return value
+                self.stats["retries"] += 1
+            raise Unsatisfied(f"constrained primitive {t.name}")
+        return super().gen_value(t, depth)
+
+    def gen_instance(self, cls: str, depth: int = 0) -> Inst:
+        invs = self.pm.all_invariants(cls)
+        last_error: Optional[Exception] = None
+        if depth == 0:
+            self._work = 0
+        tries = (self.tries_instance if depth == 0 else 6) if invs else 2
+        for _ in range(tries):
+            self._work += 1
+            if self._work > self.work_budget:
+                self.stats["unsatisfied"] += 1
+                raise Unsatisfied(f"work budget exhausted at class {cls}")
+            try:
+                inst = super().gen_instance(cls, depth)
+            except Unsatisfied as err:
+                last_error = err
+                self.stats["retries"] += 1
+                continue
+            if not invs or self._holds(invs, to_shadow(self.pm, inst)):
+                self.stats["instances"] += 1
+                return inst
+            self.stats["retries"] += 1
+        self.stats["unsatisfied"] += 1
+        raise Unsatisfied(f"class {cls}: {last_error}")
+
+
+def all_invariants_hold(pm: PyModel, inst: Inst) -> bool:
+    """Independent re-check over the whole tree (used by checks before judging)."""
+    memo: Dict[int, Any] = {}
+    to_shadow(pm, inst, memo)
+    for path, value, t in walk(pm, inst):
+        if isinstance(value, Inst):
+            arg, invs = memo[id(value)], pm.all_invariants(value.cls)
+        elif t.kind == "atomic" and pm.is_constrained_primitive(t.name):
+            arg, invs = value, pm.all_invariants(t.name)
+        else:
+            continue
+        for _, inv in invs:
+            if inv.func is None:
+                continue
+            try:
+                if inv.func(arg) is not True:
+                    return False
+            except Exception:
+                return False
+    return True
